@@ -1,5 +1,5 @@
 HOOK_COMMITS = ["1ff129b", "a99d5e7"]
-FIX_COMMITS = ["4e1b160", "0b73798", "872da6d", "b5a5c41", "ada87a3", "a2a8667", "23387d2", "95cd43f", "1d40f2f", "9fea99c", "bc380c0", "6fab2aa", "6b8e051", "ae1cc55", "185de16", "f515ae6", "323b567", "b95a3c3"]
+FIX_COMMITS = ["4e1b160", "0b73798", "872da6d", "b5a5c41", "ada87a3", "a2a8667", "23387d2", "95cd43f", "1d40f2f", "9fea99c", "bc380c0", "6fab2aa", "6b8e051", "ae1cc55", "185de16", "f515ae6", "323b567", "b95a3c3", "9a5f0b9"]
 NOTES = "See DESIGN.md. Every check rebuilds the Lean property module, audits axioms, rebuilds the harness from /repo's working tree (content-hash cache) and runs the ties."
 NOT_APPLICABLE = {}
 CHECKS = {'C09': {'category': 'proof',
@@ -144,12 +144,12 @@ CHECKS = {'C09': {'category': 'proof',
          'note': 'SC interleavings only (threads serialised by a baton at every atomic operation); memory orders not modelled; explored schedules only for the history/oracle/trace ties; Lean kernel '
                  '+ propext/Classical.choice/Quot.sound. Split lists over LazyList / IterableList, static bucket table, Feldman maps and RCU forms: histories only.'},
  'C15': {'category': 'translation_validation',
-         'technique': 'Lean 4: SkipListSet machine of the repaired code tied by atomic-trace conformance with a structural predicate evaluated on every replayed state; machine-checked counterexample '
+         'technique': 'Lean 4: SkipListSet machine of the repaired code proved linearizable for all schedules (inductive invariant + ghost log) and tied by atomic-trace conformance with a structural predicate evaluated on every replayed state; machine-checked counterexample '
                       'for the code before commit b95a3c3; histories of skip lists, EllenBinTree and BronsonAVLTreeMap judged by the verified checker against the (relaxed min/max) map specification '
                       '+ real-time min/max oracle',
          'text': 'Algo/SkipList models towers, helping find_position, level-by-level insertion, try_remove_at and the fast / slow find paths; theorems: marked words frozen, level 0 marked only by '
                  "the successful erase, the fast path answers 'found' only after reading an unmarked level-0 link; without that mark test the machine has a complete run whose history is proved "
-                 'non-linearizable (the defect this tie found and commit b95a3c3 repaired). Linearizability of the repaired machine for all schedules is not proved. All tree variants are decided by '
+                 'non-linearizable (the defect this tie found and commit b95a3c3 repaired). For the repaired machine: C15_skiplist_invariant / _structure / _level0 / _mark_once and C15_skiplist_linearizable (every run, Spec.map) are proved; the upper-level sub-list clauses are not. EllenBinTree and Bronson are decided by '
                  'histories on explored schedules; extract_min / extract_max are judged by Spec.mapRelaxed plus a real-time oracle (no key present throughout the call is smaller / larger).',
          'note': 'SC interleavings only (threads serialised by a baton at every atomic operation); memory orders not modelled; explored schedules only for the history/oracle/trace ties; Lean kernel '
                  '+ propext/Classical.choice/Quot.sound. EllenBinTree and BronsonAVLTreeMap: no algorithm model.'},
